@@ -152,9 +152,43 @@ func dispatchArms(paths []*Path, isSel func(t *Term) bool) (arms map[string][]*P
 	for _, p := range paths {
 		label := ""
 		saw := false
+		// a path that holds the selector equal to two different keys, or equal and unequal to the same key, is not a
+		// path of the program (the executor does not relate `sel != K1` refuted to a later `sel == K2` taken)
+		eqs, neqs := map[string]bool{}, map[string]bool{}
 		for _, c := range p.Conds {
 			t := c.Term
-			if t.Op != "bin" || t.Sym != "==" {
+			if t.Op != "bin" || t.Sym != "==" && t.Sym != "!=" {
+				continue
+			}
+			var k *Term
+			if isSel(t.Args[0]) {
+				k = t.Args[1]
+			} else if isSel(t.Args[1]) {
+				k = t.Args[0]
+			} else {
+				continue
+			}
+			if k.Op != "global" && k.Op != "const" {
+				continue
+			}
+			if c.Taken == (t.Sym == "==") {
+				eqs[k.Key()] = true
+			} else {
+				neqs[k.Key()] = true
+			}
+		}
+		infeasible := len(eqs) > 1
+		for k := range eqs {
+			if neqs[k] {
+				infeasible = true
+			}
+		}
+		if infeasible {
+			continue
+		}
+		for _, c := range p.Conds {
+			t := c.Term
+			if t.Op != "bin" || t.Sym != "==" && t.Sym != "!=" {
 				continue
 			}
 			var k *Term
@@ -166,7 +200,7 @@ func dispatchArms(paths []*Path, isSel func(t *Term) bool) (arms map[string][]*P
 				continue
 			}
 			saw = true
-			if c.Taken {
+			if c.Taken == (t.Sym == "==") { // `sel == k` taken, or `sel != k` refuted (an if-chain written with !=)
 				label = k.Key()
 				break
 			}
